@@ -11,6 +11,7 @@ EXPLANATION = (
     "is a power-loss question outside this property (listed as an observation). Content equality with a transactional load is not decided."
     " C30.3: no segment builder iterates a set of edge keys (or dedups the edge vector) into a segment — relationships are a multiset."
     " C30.4: the bulk loader's external -> internal id map is only accessed by key."
+    " C30.5: BulkLoader::write_properties never branches on the kind of a property value, so every value it is given reaches the property tree."
 )
 
 
@@ -94,6 +95,7 @@ def run(ctx):
     # The loader hands out internal ids in insertion order and remembers them in `external_to_internal`, a BTreeMap ordered by *external* id.
     # Pairing nodes with the map positionally (`zip(map.values())`, iteration order) is only right when the input happens to be sorted by
     # external id; otherwise properties / edges are attached to other nodes than the transactional load would attach them to.
+    all_values_rule(ctx)
     ctx.rule("C30.4", "the bulk loader's external -> internal id map is only accessed by key (index / get / insert / contains_key): never iterated or zipped positionally")
     KEYED = ("index", "get", "insert", "contains_key", "len", "is_empty", "entry", "get_mut")
     n4 = 0
@@ -120,3 +122,33 @@ def run(ctx):
                        "order in which internal ids were handed out, so nodes given in unsorted order get each other's properties" % short, c.loc())
             k += 1
     ctx.floor("C30.4", "accesses to the id map in the bulk loader", n4, 5)
+
+
+WRITE_PROPS = "nervusdb_storage::bulkload::BulkLoader::write_properties"
+
+
+def all_values_rule(ctx, rid="C30.5"):
+    """the bulk loader stores every property value it is given, whatever its kind (the transactional path does)"""
+    from ..facts import op_local
+    F = ctx.facts
+    ctx.rule(rid, "BulkLoader::write_properties never branches on the kind of a property value: every (key, value) of every node and relationship reaches the "
+             "property tree, as it does through set_node_property / set_edge_property + compaction")
+    b = ctx.body(WRITE_PROPS)
+    bodies = [b] + [cb for cb in F.closures_of(WRITE_PROPS)]
+    inserts = [c for x in bodies for c in x.calls() if c.name.endswith("index::btree::BTree::insert")]
+    ctx.floor(rid, "property-tree inserts in write_properties", len(inserts), 2)
+    n = 0
+    for x in bodies:
+        for bi, blk in enumerate(x.blocks):
+            if x.is_cleanup(bi):
+                continue
+            for st in blk["s"]:
+                if st[0] == "a" and st[2][0] == "discr":
+                    l = st[2][1][0]
+                    ty = x.local_ty(l)
+                    if "PropertyValue" in ty and "Option" not in ty and "Result" not in ty:
+                        n += 1
+                        ctx.finding(rid, "%s:write_properties:value-kind-test#%d" % (rid, n),
+                                    "write_properties inspects the kind of a property value (%s) before storing it: values of the skipped kind are missing from a "
+                                    "bulk-loaded database although a transactional load keeps them" % ty, "%s:%d" % (x.file, st[3] if len(st) > 3 else x.line))
+    ctx.instance(rid, "value-kind tests in write_properties: %d; inserts: %d" % (n, len(inserts)))
